@@ -97,7 +97,8 @@ claim('C09', 'Lean 4 refinement proof (candidate-scan / recursive resolution / r
       NOTE + ' Symbol names have >= 2 characters; substitution inside quoted strings is not generated.')
 claim('C17', 'Lean 4 proofs (fresh file scope, double/missing include rejected, includer state continues, payload pasting, order-free directory search) + differential and metamorphic correspondence',
       'Kernel-checked theorems: every line read from a file carries that file\'s own scope; a file opened twice or missing is '
-      'rejected; after a selected #include the includer continues with unchanged region, zone, mute depth and condition stack, an '
+      'rejected, and the record of opened files of an accepted program holds no file twice - whichever file of the include tree '
+      'opened it (nested, sibling, diamond); after a selected #include the includer continues with unchanged region, zone, mute depth and condition stack, an '
       'unselected #include has no effect; including a payload-only file yields exactly the lines of the pasted text; the directory '
       'search accepts exactly one hit independently of directory order and de-duplication keeps one entry per real path. Each run '
       'compares split programs (nested includes, several include directories, symlinks) with the model and, for scope-neutral '
@@ -120,7 +121,8 @@ claim('C16', 'Lean 4 proofs (decoders invert the reference encoders: Intel HEX r
 
 claim('C13', 'Lean 4 decision-logic proofs (first matching variant, specific before sets, disallowed skipped, stable rank order inside a set, registers never numeric) + differential correspondence',
       'Kernel-checked theorems: the selected variant is the first in definition order whose operand pattern accepts and all earlier '
-      'ones decline; rejection iff every variant declines; specific operand combinations precede operand sets; a disallowed '
+      'ones decline; rejection iff every variant declines; specific operand combinations precede operand sets and are the variant\'s match '
+      'whatever the operand_sets section and its disallowed list say; a disallowed '
       'combination is skipped; inside a set the alternatives are tried in a stable sort by type rank (bracketed / indexed < keys < '
       'registers < numeric) and the first acceptance wins; numeric-like types never accept an expression containing a register name '
       '(in any letter case, also under unary minus / BYTEn). '
@@ -163,7 +165,8 @@ claim('C18', 'Lean 4 proofs about the model scanner (whitespace / comment / blan
 claim('C14', 'Lean 4 proofs (fail-closed run function, error propagation, no false success, bounded image iteration) + corruption-stream observation with watchdog and sentinel files',
       'PARTIAL. Kernel-checked theorems on the model: a failed assembly leaves the file system unchanged and reports failure, a '
       'successful one writes exactly the image and nothing else; an error of any line (unresolvable label, value that does not fit, '
-      'no accepting variant, unknown instruction) makes the whole assembly fail; the image is a bounded iteration on which a zero-length '
+      'no accepting variant, unknown instruction) makes the whole assembly fail, whether that line is muted or not (an accepted '
+      'program has built the bytes of every line); the image is a bounded iteration on which a zero-length '
       'line has no influence; every model function is total (fuel-indexed ones never exhaust their fuel: C07, C09). Observed, not proved: '
       'that the Python process terminates (watchdog 5 s + one retry at 60 s) and that nothing fails after the image was written '
       '(output file pre-created with sentinel content in half of the cases). Each run feeds single and double corruptions of valid '
